@@ -38,4 +38,11 @@ var propSpecs = []PropSpec{
 		NotDecided:  "that the diagnostic is located at that scalar and is a syntax error (position arithmetic, see C07); value-dependent behaviour of the excluded positions; conditional (path-dependent) hand-over of a parsed value to its field",
 		Assumptions: commonAssumptions,
 	},
+	{
+		ID:          "C13",
+		Rules:       []string{"C13.DEF", "C13.CONT", "C13.CASEARG", "C13.DUP", "C13.MAND", "C13.FIXEDLEN"},
+		Explanation: "Decides, over every loop on a parseMapping/parseSectionMapping result in the workflow parser: a fixed key set has a default/else branch reporting the key with unexpectedKey at that loop's key (DEF); no return/break leaves a key loop (CONT); fixed-key sections are parsed case-sensitively and name-keyed ones case-insensitively (CASEARG); parseMapping tests for duplicates before storing and folds case iff case-insensitive (DUP); every mandatory key of the workflow syntax is tested after its loop by a reporting check that is not nested under an undocumented condition (MAND); mappings accessed by constant index are length-checked exactly (FIXEDLEN).",
+		NotDecided:  "exact messages and columns; the accepted key set itself against GitHub's schema (only that keys outside the switch are reported)",
+		Assumptions: commonAssumptions,
+	},
 }
